@@ -30,12 +30,12 @@ def run(tier, seed, replay=None):
     if replay:
         args += ["-replay", replay]
     res = vlib.harness_json(vctl, args, wd, timeout=3000)
-    if res.get("inconclusive"):
-        raise vlib.Inconclusive("; ".join(res["inconclusive"][:5]))
-    if not replay and res["evaluations"] != nvec * inst:
-        raise vlib.Inconclusive("harness evaluated %d of %d vector instances" % (res["evaluations"], nvec * inst))
     for viol in res["violations"]:
         v.violation(viol["sig"], viol["what"], viol["replay"])
+    if res.get("inconclusive") and not v.violations:
+        raise vlib.Inconclusive("; ".join(res["inconclusive"][:5]))
+    if not replay and res["evaluations"] != nvec * inst and not v.violations:
+        raise vlib.Inconclusive("harness evaluated %d of %d vector instances" % (res["evaluations"], nvec * inst))
     c = res["counters"]
     if not replay and (c.get("effects_confirmed", 0) == 0 or c.get("refusals_confirmed", 0) == 0):
         if not res["violations"]:
